@@ -185,6 +185,8 @@ E19 = _o('oracle: TicksSinceStart through Consume (floor, clamp, registry)', 'e1
          'random commit-time sequences and five tick sizes', ['c19'])
 E11 = _o('oracle: FileDiff output is a canonical edit script with consistent counts', 'e16', 160000, 3000000,
          'random blob pairs (CRLF, invalid UTF-8, duplicates, no final newline, cleanup on/off): counts, identical equal runs, shape', ['c11'])
+E11W = _o('oracle: FileDiff with whitespace-ignore: canonical script, counts agree with the line counter', 'e16', 60000, 1500000,
+          'random blob pairs over lines that differ in spaces only, space-only lines, space-only last line without newline; cleanup on/off', ['c11ws'])
 E18 = _o('oracle: devs / couples / summary merges conserve totals', 'e18', 300, 20000,
          'pairs of results of real runs on synthetic repositories with partially overlapping files and identities')
 E20N = _o('oracle: TreeDiff+BlobCache, no filter', 'e20', 600, 40000, 'apply(changes, previous set) == current set; blob bytes', ['none'])
@@ -236,7 +238,7 @@ PROPS = {
     'C08': dict(corr=[DAG, RBC, RBW, PFORK]),
     'C09': dict(corr=[RUN, HB, HBF, E01]),
     'C10': dict(level='translation_validation', corr=[RES, E10]),
-    'C11': dict(corr=[LN, K11D, E11]),
+    'C11': dict(corr=[LN, K11D, E11, E11W]),
     'C12': dict(corr=[LN, LNC, ONES, RUN, E14]),
     'C13': dict(corr=[RN]),
     'C14': dict(corr=[RUN, E14]),
